@@ -705,7 +705,7 @@ fn absorb(rep: &mut Report, lock: &Lock, pan: Option<crate::util::Panic>, src: &
 
 pub fn run(ctx: &Ctx) -> (Report, String) {
     let thorough = ctx.tier == Tier::Thorough;
-    let n_random = if ctx.miri() { 12 } else { ctx.n(4000, 160_000) };
+    let n_random = if ctx.miri() { 12 } else { ctx.n(12_000, 200_000) };
     let reps = par_shards(64, ctx.threads, |s| {
         let mut rep = Report::new();
         crate::mon::guarded(&mut rep, || J::obj().set("property", "C14").set("shard", s), |rep| shard(ctx, s, n_random, thorough, rep));
@@ -714,7 +714,7 @@ pub fn run(ctx: &Ctx) -> (Report, String) {
     let mut rep = Report::merge_all(reps);
     if ctx.is_main() {
         let m = ctx.scale_pct;
-        rep.require("operations_compared", if thorough { 100_000_000 } else { 5_000_000 } * m / 100);
+        rep.require("operations_compared", if thorough { 300_000_000 } else { 15_000_000 } * m / 100);
         for k in ["op:read:ok", "op:read:eof", "op:read:width-error", "op:read_signed:ok", "op:peek:ok", "op:skip:eof", "op:read_vlc:ok", "op:read_vlc:eof", "op:transaction:err", "op:transaction_union:none", "op:lookahead:ok", "op:commit:ok", "op:grow:ok", "op:start_code:found", "op:start_code:none", "op:start_code:eof", "op:start_code_in_error:found", "reads_straddling_end", "phase0", "phase1", "phase2", "phase3", "phase4", "phase5", "phase6", "phase7"] {
             rep.require(k, 100);
         }
@@ -784,5 +784,5 @@ fn shard(ctx: &Ctx, s: usize, n_random: u64, thorough: bool, rep: &mut Report) {
 }
 
 pub fn replay_shard(ctx: &Ctx, s: usize, rep: &mut Report) {
-    shard(ctx, s, ctx.n(4000, 160_000), ctx.tier == Tier::Thorough, rep);
+    shard(ctx, s, ctx.n(12_000, 200_000), ctx.tier == Tier::Thorough, rep);
 }
